@@ -269,6 +269,9 @@ class DirectiveArgumentDefaultValueChange(SchemaChange):
         self.directive = directive
         self.old_argument = old_argument
         self.new_argument = new_argument
+        if new_argument.required and not old_argument.required:
+            # Without its default the non null argument must be provided.
+            self.severity = SchemaChangeSeverity.BREAKING
 
 
 class DirectiveArgumentChangedType(SchemaChange):
@@ -358,6 +361,9 @@ class FieldArgumentDefaultValueChange(SchemaChange):
         self.field = field
         self.old_argument = old_argument
         self.new_argument = new_argument
+        if new_argument.required and not old_argument.required:
+            # Without its default the non null argument must be provided.
+            self.severity = SchemaChangeSeverity.BREAKING
 
 
 class FieldArgumentChangedType(SchemaChange):
@@ -548,6 +554,9 @@ class InputFieldDefaultValueChange(SchemaChange):
         self.type = input_type
         self.old_field = old_field
         self.new_field = new_field
+        if new_field.required and not old_field.required:
+            # Without its default the non null field must be provided.
+            self.severity = SchemaChangeSeverity.BREAKING
 
 
 class InputFieldChangedType(SchemaChange):
